@@ -24,7 +24,9 @@ def random_runs(schema, rnd, tier):
             elif k < 0.6:
                 c, i = rnd.choice(live)
                 n = rnd.choice([a['n'] for a in schema['attrs'][c]])
-                acts.append(['SetAttr', c, i, n, metagen.value_for(schema, c, n, rnd, 6)])
+                # (now and then None is written: every spelling then reads None, and the null value is serialised)
+                v = 'unset' if rnd.random() < 0.15 and n in metagen.plain_attrs(schema, c) else metagen.value_for(schema, c, n, rnd, 6)
+                acts.append(['SetAttr', c, i, n, v])
             elif k < 0.75:
                 c, i = rnd.choice(live)
                 n = rnd.choice([a['n'] for a in schema['attrs'][c]])
